@@ -1116,8 +1116,16 @@ func (m *metadataAPI) AddStream(protoStream *proto.Stream, recovered bool, epoch
 		return nil, errors.New("stream has no partitions")
 	}
 
+	// Deletions are announced to the consumer groups once the mutex is
+	// released since the resulting rebalance reads the streams.
+	var announce []func()
 	m.mu.Lock()
-	defer m.mu.Unlock()
+	defer func() {
+		m.mu.Unlock()
+		for _, streamDeleted := range announce {
+			streamDeleted()
+		}
+	}()
 
 	existing, ok := m.streams[protoStream.Name]
 	if ok {
@@ -1138,7 +1146,7 @@ func (m *metadataAPI) AddStream(protoStream *proto.Stream, recovered bool, epoch
 		if err := existing.Close(); err != nil {
 			return nil, err
 		}
-		m.removeStream(existing, epoch)
+		announce = append(announce, m.removeStream(existing, epoch))
 	}
 
 	config := protoStream.GetConfig()
@@ -1148,7 +1156,7 @@ func (m *metadataAPI) AddStream(protoStream *proto.Stream, recovered bool, epoch
 
 	for _, partition := range protoStream.Partitions {
 		if err := m.addPartition(stream, partition, recovered, config); err != nil {
-			m.removeStream(stream, epoch)
+			announce = append(announce, m.removeStream(stream, epoch))
 			return nil, err
 		}
 	}
@@ -1486,8 +1494,14 @@ func (m *metadataAPI) resetFailovers() {
 // tombstone. Tombstoned streams will be deleted after the recovery process
 // completes.
 func (m *metadataAPI) RemoveStream(stream *stream, recovered bool, epoch uint64) error {
+	// The deletion is announced to the consumer groups once the mutex is
+	// released since the resulting rebalance reads the streams.
+	streamDeleted := func() {}
 	m.mu.Lock()
-	defer m.mu.Unlock()
+	defer func() {
+		m.mu.Unlock()
+		streamDeleted()
+	}()
 
 	// If this operation is being applied during recovery, only tombstone the
 	// stream. We don't want to delete streams until recovery finishes to avoid
@@ -1497,9 +1511,11 @@ func (m *metadataAPI) RemoveStream(stream *stream, recovered bool, epoch uint64)
 	if recovered {
 		stream.Tombstone()
 	} else {
-		if err := m.deleteStream(stream, epoch); err != nil {
+		announce, err := m.deleteStream(stream, epoch)
+		if err != nil {
 			return err
 		}
+		streamDeleted = announce
 	}
 
 	// Update broker load counts.
@@ -1526,8 +1542,15 @@ func (m *metadataAPI) RemoveTombstonedStream(stream *stream, epoch uint64) error
 		return fmt.Errorf("cannot delete stream %s because it is not tombstoned", stream)
 	}
 	m.mu.Lock()
-	defer m.mu.Unlock()
-	return m.deleteStream(stream, epoch)
+	streamDeleted, err := m.deleteStream(stream, epoch)
+	m.mu.Unlock()
+	if err != nil {
+		return err
+	}
+	// Announce the deletion to the consumer groups now that the mutex is
+	// released since the resulting rebalance reads the streams.
+	streamDeleted()
+	return nil
 }
 
 // LostLeadership should be called when the server loses metadata leadership.
@@ -1540,28 +1563,33 @@ func (m *metadataAPI) LostLeadership() {
 	m.resetFailovers()
 }
 
-// deleteStream deletes the stream and the associated on-disk data for it.
-func (m *metadataAPI) deleteStream(stream *stream, epoch uint64) error {
+// deleteStream deletes the stream and the associated on-disk data for it. It
+// returns the function announcing the deletion to the consumer groups (see
+// removeStream).
+func (m *metadataAPI) deleteStream(stream *stream, epoch uint64) (func(), error) {
 	err := stream.Delete()
 	if err != nil {
-		return errors.Wrap(err, "failed to delete stream")
+		return nil, errors.Wrap(err, "failed to delete stream")
 	}
 
 	// Remove the stream data directory
 	streamDataDir := filepath.Join(m.Server.config.DataDir, "streams", stream.GetName())
 	err = os.RemoveAll(streamDataDir)
 	if err != nil {
-		return errors.Wrap(err, "failed to delete stream data directory")
+		return nil, errors.Wrap(err, "failed to delete stream data directory")
 	}
 
-	m.removeStream(stream, epoch)
-	return nil
+	return m.removeStream(stream, epoch), nil
 }
 
-// removeStream removes the stream from the stream store, cancels any
-// in-flight failovers for its partitions, and triggers a rebalance of consumer
-// group assignments.
-func (m *metadataAPI) removeStream(stream *stream, epoch uint64) {
+// removeStream removes the stream from the stream store and cancels any
+// in-flight failovers for its partitions. It returns a function which
+// announces the deletion to the consumer groups, triggering a rebalance of
+// their assignments. The caller must call it after releasing the metadata
+// mutex, since the rebalance reads the streams, and before the operation
+// returns, so that the announcement is ordered with the operations applied
+// after it.
+func (m *metadataAPI) removeStream(stream *stream, epoch uint64) func() {
 	delete(m.streams, stream.GetName())
 	for _, partition := range stream.GetPartitions() {
 		failover, ok := m.partitionFailovers[partition]
@@ -1570,14 +1598,14 @@ func (m *metadataAPI) removeStream(stream *stream, epoch uint64) {
 			delete(m.partitionFailovers, partition)
 		}
 	}
-	m.startGoroutine(func() {
+	return func() {
 		verifGate("metadata.stream_deleted")
 		m.consumerGroupsMu.RLock()
 		for _, group := range m.consumerGroups {
 			group.StreamDeleted(stream.GetName(), epoch)
 		}
 		m.consumerGroupsMu.RUnlock()
-	})
+	}
 }
 
 func (m *metadataAPI) getStreams() []*stream {
